@@ -1128,6 +1128,9 @@ pub const ZOO_CONSTANT_TEMPLATES: &[&str] = &[
     r####"function z62(a, b) { return `${b + a}` + `${a + b}${b + a}` + `pre${a + 'x'}`; }"####,
     r####"function z63(a, b) { return `${-1 + +1 + ~1}` + `${typeof 'a' + 'b' + 'c'}` + `${'a' + 'b' + 1n}`; }"####,
     r####"function z64(a, b) { return `${('a' + 'b') + ('c' + 'd')}${null + undefined + ''}` + `${`${'p' + 'q' + 'r'}`}`; }"####,
+    // round s: `.call` / `.apply` whose callee path is short or starts at something that is neither an identifier nor a member
+    r####"function z70(a, b) { return this.Array.call(this, a) + fn0().Array.apply(null, b) + (a || b).String.call(a) + fn0().prototype.trim.call(a) + this.concat.call(a, b) + fn0().Array.prototype.slice.call(a) + this.prototype.call(a) + (0, fn0).call(a); }"####,
+    r####"function z71(a, b) { return Array.call(a, b) + prototype.trim.apply(a, [b]) + String.prototype.call(a) + a[0].Array.call(b, 1) + new.target.Array.call(a, b) + `x`.Array.call(a) + (() => a).Array.apply(b, [a]); }"####,
 ];
 
 pub const ZOO_LITERAL_BASES: &[&str] = &[
